@@ -699,7 +699,7 @@ if os.path.exists(corpus_file):
     for i, c in enumerate(json.load(open(corpus_file))['cases']):
         cases.append(('corpus-%d-%s' % (i, c.get('name', '')), c['spec'], {'topo': 'corpus', 'keys': 'corpus', 'nres': 0}))
 rng = chk.rng('cases')
-N = int(os.environ.get('C01_N', 4000 if chk.thorough else 450))
+N = int(os.environ.get('C01_N', 16000 if chk.thorough else 450))
 for i in range(N):
     big = chk.thorough and i % 10 == 0
     spec, meta = gen_case(rng, 25 if big else 8, FEAT)
